@@ -138,3 +138,39 @@ PROPS["C10"] = Spec(
     bounds={"quick": "3-25 ops / <=3 consumers x <=2 dispatchers x <=8 steps, 4x1500 cases", "thorough": "3-45 ops / <=14 steps, 16x15000 cases"},
     assumptions=_E5_ASSUME,
 )
+
+_E3_GEN = ("component trees (1-7, thorough 1-15 components; depth<=3/4; children declared by add_component, external config or "
+           "both; aliases incl. kind/name) with generated prepare()/start() scripts of sleeps (virtual ticks), checkpoints, "
+           "publications (static / sync+async factory / multi-type, unique pairs), waits (get_resource), non-waiting lookups, "
+           "teardown callbacks, service tasks and publication bursts; wait edges are drawn only forward in a random "
+           "linearisation of the phase DAG, so every dependency pattern is acyclic by construction; ")
+PROPS["C05"] = Spec(
+    engine="harness.engines.components", quick_cases=2500, thorough_cases=15000,
+    rule=_E3_GEN + "oracle on the (serial, event, path, virtual time) trace: constructors first, prepare-end before children, all "
+    "children released at the same virtual instant, start-begin == max(children done) and after every descendant, each method "
+    "once, return value/time, no timeout, ownership (visible in caller, nothing in its parent, reverse-order teardown, service "
+    "tasks ended); non-trivial = (depth>=3 or a completed wait) and a phase with non-zero duration",
+    bounds={"quick": "<=7 components, depth<=3, fan-out<=3, <=4 steps per phase, 4x2500", "thorough": "<=15 components, depth<=4, fan-out<=4, <=6 steps, 16x15000"},
+    assumptions=COMMON_ASSUMPTIONS,
+)
+PROPS["C06"] = Spec(
+    engine="harness.engines.components", quick_cases=2500, thorough_cases=15000,
+    rule=_E3_GEN + "decoys arise from the small type x name pools (same name/other type, same type/other name), bursts of 1-8 or 40-70 "
+    "(thorough 40-130) unrelated publications without a checkpoint; oracle: every wait returns exactly at max(request time, first "
+    "matching publication time) with the published object / factory product; optional, synchronous and outside-startup lookups "
+    "complete without any other task running in between; non-trivial = (a wait whose publication came after the request, with a "
+    "decoy present) or request and publication within 3 trace events at the same virtual time (race window)",
+    bounds={"quick": "<=7 components, bursts<=70, 4x2500", "thorough": "<=15 components, bursts<=130, 16x15000"},
+    assumptions=COMMON_ASSUMPTIONS,
+)
+PROPS["C07"] = Spec(
+    engine="harness.engines.components", quick_cases=2500, thorough_cases=15000,
+    rule=_E3_GEN + "plus exactly one fault: 60% an exception (3 classes) injected at a generated position of a generated component's "
+    "constructor/prepare()/start(); 25% timeout metamorphic (run without timeout to measure the virtual duration L, then with "
+    "timeout L+-k: success with the same trace, or TimeoutError exactly at T); 15% a stalling component plus a timeout; oracle: "
+    "ComponentStartError phase/path/class/__cause__ identity, no ancestor start(), every begun phase ended or cancelled, no trace "
+    "growth during 10^4 virtual seconds after the error, reverse-order teardown, no surviving service task; non-trivial = failing "
+    "component at depth>=2 or a sibling cancelled mid-phase, or >=2 phases cancelled by the timeout",
+    bounds={"quick": "<=7 components, 4x2500 (timeout cases run twice)", "thorough": "<=15 components, 16x15000"},
+    assumptions=COMMON_ASSUMPTIONS,
+)
